@@ -243,7 +243,11 @@ Qed.
 
 Lemma att_index_nat : forall {A : Type} (l : list A) i x,
   nth_error l i = Some x -> att_index l (JInt (Z.of_nat i)) = Ok x.
-Proof. intros A l i x H. unfold att_index. now rewrite (py_index_nat l i x H). Qed.
+Proof.
+  intros A l i x H. unfold att_index, json_neg.
+  assert ((Z.of_nat i <? 0)%Z = false) as -> by (apply Z.ltb_ge; lia).
+  now rewrite (py_index_nat l i x H).
+Qed.
 
 (** * the stable sort *)
 Section SortFacts.
